@@ -23,8 +23,13 @@ Trace == ndJsonDeserialize("trace.ndjson")
 NB == 17   BS == 16   MR == 10   BIL == 2   TIL == 10   MaxFails == 5   MinBkt == 4
 BucketIndex(ld) == IF ld <= 240 THEN 0 ELSE ld - 240      \* bucketAtDistance: d <= 239 -> 0, else d - 240
 
-VARIABLES l, tab, viol, maxRem, minStay, drift
-vars == <<l, tab, viol, maxRem, minStay, drift>>
+VARIABLES l, tab, viol, maxRem, minStay, drift,
+          cf      \* ghost: <<id, ip>> -> fruitless node queries in a row, counted by the judge itself (the code's own counter is what
+                  \* sweep mutant G3/35-C18 stopped resetting): a query that brings something resets it
+vars == <<l, tab, viol, maxRem, minStay, drift, cf>>
+CF(c, k) == IF k \in DOMAIN c THEN c[k] ELSE 0
+CFPut(c, k, v) == [j \in DOMAIN c \cup {k} |-> IF j = k THEN v ELSE c[j]]
+CFAfter(c, o) == IF o.name # "track" THEN c ELSE CFPut(c, <<o.id, o.ip>>, IF o.ok THEN 0 ELSE CF(c, <<o.id, o.ip>>) + 1)
 
 EmptyTab == [b \in 0..(NB - 1) |-> [e |-> <<>>, r |-> <<>>]]
 Apply(t, ch) == [b \in 0..(NB - 1) |->
@@ -61,7 +66,7 @@ Adds(o) == IsAdd(o) \/ o.name = "seeds" \/ (o.name = "track" /\ o.ok)
 EndpointChanged(a, b) == a.ip # b.ip \/ a.port # b.port
 RecChanged(a, b) == EndpointChanged(a, b) \/ a.seq # b.seq
 
-Act(pre, post, o) ==
+Act(pre, post, o, cfn) ==
   LET b0 == BucketIndex(o.ld)
       Removed(b) == IdsOf(pre[b].e) \ IdsOf(post[b].e) IN
   [ noEviction |-> Adds(o) => \A b \in 0..(NB - 1) : IdsOf(pre[b].e) \subseteq IdsOf(post[b].e),
@@ -78,7 +83,7 @@ Act(pre, post, o) ==
     removalCause |-> \A b \in 0..(NB - 1) : \A n \in Removed(b) :
                         \/ o.name = "delete" /\ o.id = n
                         \/ o.name = "reval" /\ o.id = n /\ ~o.alive
-                        \/ o.name = "track" /\ o.id = n /\ ~o.ok /\ o.fails >= MaxFails /\ o.nb >= MinBkt,
+                        \/ o.name = "track" /\ o.id = n /\ ~o.ok /\ CF(cfn, <<o.id, o.ip>>) >= MaxFails /\ o.nb >= MinBkt,
     succession |-> \A b \in 0..(NB - 1) : Removed(b) # {} =>
                         IF pre[b].r = <<>> THEN Len(post[b].e) = Len(pre[b].e) - 1 /\ post[b].r = <<>>
                         ELSE /\ Len(post[b].e) = Len(pre[b].e) /\ Len(post[b].r) = Len(pre[b].r) - 1
@@ -113,28 +118,29 @@ Pinned(post, o) ==
      ELSE IF o.credit \div 3 = 0 THEN o.id \notin IdsOf(post[b0].e)
      ELSE o.id \in IdsOf(post[b0].e) /\ Find(post[b0].e, o.id).chk = o.credit \div 3
 
-Init == l = 1 /\ tab = EmptyTab /\ viol = {} /\ maxRem = -1 /\ minStay = 1000000 /\ drift = {}
+Init == l = 1 /\ tab = EmptyTab /\ viol = {} /\ maxRem = -1 /\ minStay = 1000000 /\ drift = {} /\ cf = <<>>
 
 Next ==
   /\ l <= Len(Trace)
   /\ l' = l + 1
   /\ LET e == Trace[l] IN
-     CASE e.ev = "init" -> tab' = EmptyTab /\ UNCHANGED <<viol, maxRem, minStay, drift>>
+     CASE e.ev = "init" -> tab' = EmptyTab /\ cf' = <<>> /\ UNCHANGED <<viol, maxRem, minStay, drift>>
        [] e.ev = "op" ->
             LET post == Apply(tab, e.ch)
                 o == e.op
                 mr == IF FailedReval(o) /\ Left(post, o) THEN Mx(maxRem, o.credit) ELSE maxRem
-                ms == IF FailedReval(o) /\ ~Left(post, o) THEN Mn(minStay, o.credit) ELSE minStay IN
-            /\ tab' = post /\ maxRem' = mr /\ minStay' = ms
+                ms == IF FailedReval(o) /\ ~Left(post, o) THEN Mn(minStay, o.credit) ELSE minStay
+                cfn == CFAfter(cf, o) IN
+            /\ tab' = post /\ maxRem' = mr /\ minStay' = ms /\ cf' = cfn
             /\ drift' = IF Pinned(post, o) THEN drift ELSE drift \cup {<<l, "creditArithmetic">>}
-            /\ viol' = viol \cup {<<l, f>> : f \in Failed(Inv(post, e)) \cup Failed(Act(tab, post, o))}
+            /\ viol' = viol \cup {<<l, f>> : f \in Failed(Inv(post, e)) \cup Failed(Act(tab, post, o, cfn))}
                              \cup (IF FailedReval(o) /\ mr >= ms THEN {<<l, "creditExhausted">>} ELSE {})
        [] e.ev = "snap" ->
             LET post == Apply(tab, e.ch) IN
             /\ tab' = post
             /\ viol' = viol \cup {<<l, f>> : f \in Failed(Inv(post, e))}
-            /\ UNCHANGED <<maxRem, minStay, drift>>
-       [] OTHER -> UNCHANGED <<tab, viol, maxRem, minStay, drift>>
+            /\ UNCHANGED <<maxRem, minStay, drift, cf>>
+       [] OTHER -> UNCHANGED <<tab, viol, maxRem, minStay, drift, cf>>
 
 Spec == Init /\ [][Next]_vars
 Done == l = Len(Trace) + 1
